@@ -230,3 +230,59 @@ OUTSIDE = ['validity of real signatures', 'gpg key selection', 'unusable secret 
            'the exit status']
 STUBS = ['openpgp_env -> recorder', 'gemato.openpgp.subprocess -> transcript world',
          'ModelFS dump wrapper recording the sign argument of every dump call']
+
+
+def validate(seed, tier):
+    """Real gpg (where installed): dump(sign_openpgp=True) with the real environment yields
+    a cleartext-signed message that the real load() verifies and whose entries equal the
+    dumped ones - also for paths needing escapes and for an explicit key id; an unusable key
+    id raises OpenPGPSigningFailure and leaves the output empty."""
+    import os
+    import shutil
+    import subprocess
+    import tempfile
+    if shutil.which('gpg') is None:
+        return 0, [{'note': 'no gpg binary'}], []
+    agree, details, errs = 0, [], []
+    home = tempfile.mkdtemp(prefix='vf-gpg-', dir=os.environ.get('TMPDIR', '/tmp'))
+    os.chmod(home, 0o700)
+    old = os.environ.get('GNUPGHOME')
+    os.environ['GNUPGHOME'] = home
+    try:
+        subprocess.run(['gpg', '--batch', '--pinentry-mode', 'loopback', '--passphrase', '',
+                        '--quick-generate-key', 'vf test <vf@example.org>', 'ed25519',
+                        'sign', 'never'], capture_output=True)
+        env = g_pgp.SystemGPGEnvironment()
+        for n in range(len(ENTRIES) + 1):
+            for keyid in (None, 'vf@example.org'):
+                m = ManifestFile()
+                m.entries = [new_manifest_entry(*e) for e in ENTRIES[:n]]
+                out = io.StringIO()
+                m.dump(out, sign_openpgp=True, openpgp_env=env, openpgp_keyid=keyid)
+                m2 = ManifestFile()
+                m2.load(io.StringIO(out.getvalue()), verify_openpgp=True, openpgp_env=env)
+                if m2.openpgp_signed and [e.to_list() for e in m2.entries] == \
+                        [e.to_list() for e in m.entries]:
+                    agree += 1
+                else:
+                    errs.append(f'real sign/verify round trip failed for {n} entries')
+        m = ManifestFile()
+        m.entries = [new_manifest_entry(*ENTRIES[0])]
+        out = io.StringIO()
+        try:
+            m.dump(out, sign_openpgp=True, openpgp_env=env, openpgp_keyid='nobody@nowhere')
+            errs.append('signing with an unusable key id did not fail')
+        except OpenPGPSigningFailure:
+            if out.getvalue() == '':
+                agree += 1
+            else:
+                errs.append('signing failure left output behind')
+        details.append({'round_trips': agree - 1, 'unusable_key': 'OpenPGPSigningFailure'})
+    finally:
+        subprocess.run(['gpgconf', '--kill', 'all'], capture_output=True)
+        if old is None:
+            os.environ.pop('GNUPGHOME', None)
+        else:
+            os.environ['GNUPGHOME'] = old
+        shutil.rmtree(home, ignore_errors=True)
+    return agree, details, errs
